@@ -36,10 +36,10 @@ type G struct {
 	Items []*G   // list/set elements; map k0,v0,k1,v1…; struct fields
 }
 
-func Nil() *G                { return &G{K: GNil} }
-func Bool(b bool) *G         { return &G{K: GBool, U: b2u(b)} }
-func Str(b []byte) *G        { return &G{K: GStr, B: b} }
-func Bin(b []byte) *G        { return &G{K: GBin, B: b} }
+func Nil() *G                     { return &G{K: GNil} }
+func Bool(b bool) *G              { return &G{K: GBool, U: b2u(b)} }
+func Str(b []byte) *G             { return &G{K: GStr, B: b} }
+func Bin(b []byte) *G             { return &G{K: GBin, B: b} }
 func Scalar(k GKind, u uint64) *G { return &G{K: k, U: u} }
 
 func b2u(b bool) uint64 {
